@@ -15,7 +15,7 @@ from mc.ref.calendar import RefCalendar
 
 TOGGLES = [
     "res15", "res10", "eff03", "eff15", "wkend", "leave", "vac", "limr", "limg", "limt", "gap", "prio", "alapE", "pin",
-    "sc3", "sub", "month", "tz", "hours", "long", "r5", "deep", "dst", "rev", "shutdown", "night", "limmin", "many",
+    "sc3", "sub", "month", "tz", "hours", "long", "r5", "deep", "dst", "rev", "shutdown", "night", "limmin", "many", "onstart", "cprio",
 ]
 FIRST = ("month", "dst")   # toggles that move the window: applied first, dated attributes follow the window
 
@@ -160,6 +160,15 @@ def apply(spec, tg, n):
         # eleven or more tasks at the top level (two-digit positions), equal priorities, competing pairwise for r1 / r2
         for i in range(5):
             spec["tasks"].append({"id": f"n{i}", "effort": 120 + 60 * i, "alloc": ["r1" if i % 2 else "r2"]})
+    elif tg == "onstart":
+        # an on-start edge FOLLOWED by a plain edge in one depends list (the second edge is finish-to-start again)
+        t = _task(spec, "G" if n == 0 else "E")
+        if t.get("sched") != "alap":   # (an ALAP task keeps its end anchor and no dependencies)
+            t["deps"] = [{"ref": "F" if n == 0 else "S", "onstart": True}] + [{"ref": "C"}] + [d for d in t.get("deps", []) if d["ref"] not in ("F", "S", "C")]
+    elif tg == "cprio":
+        # priorities written on CONTAINERS and inherited by their leaves (no leaf of A has a priority of its own)
+        _task(spec, "A")["prio"] = 900
+        _task(spec, "F")["prio"] = 600
     elif tg == "night":
         # a night shift that runs from Sunday evening: the after-midnight half of 'sun' belongs to Monday (weekday wrap)
         spec.setdefault("shifts", []).append({"id": "nt", "hours": [("sun - thu", ["22:00 - 6:00"])]})
@@ -198,7 +207,7 @@ def universe(tier):
 # ---- core-dialect variant for C07 (forward, whole-slot efforts, slot-aligned gaps, no alternatives) ---------------
 
 TOGGLES7 = ["res30", "res15", "res10", "effhalf", "wkend", "leave", "vac", "limr", "limg", "limt", "gap", "prio", "pin", "month", "tz",
-            "hours", "long", "r5", "deep", "dst", "rev", "shutdown", "night", "limmin", "many"]
+            "hours", "long", "r5", "deep", "dst", "rev", "shutdown", "night", "limmin", "many", "onstart", "cprio"]
 
 
 def to_spec7(item):
@@ -251,6 +260,8 @@ def universe9(tier):
                 for m in (30, 600):
                     for pos in ("first", "mid", "last"):
                         yield {"kind": "wide9", "wb": {"b": b, "t": list(ts)}, "in": {"m": m, "res": res, "pos": pos}}
+                # the added task inherits its (lowest) priority from a container of its own
+                yield {"kind": "wide9", "wb": {"b": b, "t": list(ts)}, "in": {"m": 600, "res": res, "pos": "first", "wrap": True}}
 
 
 def specs9(item):
@@ -258,6 +269,8 @@ def specs9(item):
     w = copy.deepcopy(b)
     i = item["in"]
     t = {"id": "zz", "effort": i["m"], "alloc": [i["res"]], "prio": 1}
+    if i.get("wrap"):
+        t = {"id": "bg", "prio": 1, "children": [{"id": "zz", "effort": i["m"], "alloc": [i["res"]]}]}
     w["tasks"].insert({"first": 0, "mid": len(w["tasks"]) // 2}.get(i["pos"], len(w["tasks"])), t)
     return b, w
 
@@ -399,6 +412,6 @@ def sweep(ctx, st, prop):
 
 
 NOTE = ("'wide' family (all members with the compiled extensions, the members with <= 1 toggle - thorough <= 2 - again on the pure-Python fallbacks): 2 ten-task base projects (3-level task and resource trees, team, alternative, milestone, container edges, "
-        "window across the year boundary) x every subset of <= 2 (thorough: <= 3) of 28 feature toggles (resolution 15/10 min, efficiency "
+        "window across the year boundary) x every subset of <= 2 (thorough: <= 3) of 30 feature toggles (resolution 15/10 min, efficiency "
         "0.3/1.5, weekend-only resource, leaves, vacation, resource/group/task limits, gaps, priorities, ALAP task, container pin, third "
-        "scenario, sub-slot efforts, month boundary, time zone, split hours, multi-week effort, fifth resource, 5-level nesting, a window across two daylight-saving switches with zoned seven-day resources, reversed declaration order, a five-week project vacation, a Sunday-to-Thursday night shift, limits in minutes that are no round number of hours, eleven or more top-level tasks)")
+        "scenario, sub-slot efforts, month boundary, time zone, split hours, multi-week effort, fifth resource, 5-level nesting, a window across two daylight-saving switches with zoned seven-day resources, reversed declaration order, a five-week project vacation, a Sunday-to-Thursday night shift, limits in minutes that are no round number of hours, eleven or more top-level tasks, an on-start edge followed by a plain edge, priorities inherited from containers)")
